@@ -44,6 +44,14 @@ pub enum Op {
     Uncompressed,
     Verify(bool),
     Nodelay(bool),
+    /// options that belong to other transports / other stages: none of them may change the ISI or where it is sent
+    RelayWs(bool),
+    ConnectTimeout(u32),
+    /// `mode()` instead of compressed() / uncompressed()
+    ModeSet(bool),
+    RelayHost(Option<String>),
+    RelaySpec(Option<String>),
+    RelayAdmin(Option<String>),
 }
 
 #[derive(Clone, Debug)]
@@ -141,6 +149,15 @@ pub fn apply(ops: &[Op], remote_addr: SocketAddr) -> Result<(Builder, Model), St
             },
             Op::Verify(v) => b.verify_version(*v),
             Op::Nodelay(v) => b.tcp_nodelay(*v),
+            Op::RelayWs(v) => b.relay_websocket(*v),
+            Op::ConnectTimeout(ms) => b.connect_timeout(Duration::from_millis(*ms as u64)),
+            Op::ModeSet(c) => {
+                m.compressed = *c;
+                b.mode(if *c { Mode::Compressed } else { Mode::Uncompressed })
+            },
+            Op::RelayHost(h) => b.relay_select_host(h.clone()),
+            Op::RelaySpec(h) => b.relay_spectator_password(h.clone()),
+            Op::RelayAdmin(h) => b.relay_admin_password(h.clone()),
         };
     }
     Ok((b, m))
@@ -229,6 +246,18 @@ fn op_from(s: &str) -> Option<Op> {
                 Op::Verify(i == "true")
             } else if let Some(i) = inner("Nodelay(") {
                 Op::Nodelay(i == "true")
+            } else if let Some(i) = inner("RelayWs(") {
+                Op::RelayWs(i == "true")
+            } else if let Some(i) = inner("ModeSet(") {
+                Op::ModeSet(i == "true")
+            } else if let Some(i) = inner("ConnectTimeout(") {
+                Op::ConnectTimeout(i.parse().ok()?)
+            } else if let Some(i) = inner("RelayHost(") {
+                Op::RelayHost(opt_str(&i)?)
+            } else if let Some(i) = inner("RelaySpec(") {
+                Op::RelaySpec(opt_str(&i)?)
+            } else if let Some(i) = inner("RelayAdmin(") {
+                Op::RelayAdmin(opt_str(&i)?)
             } else {
                 return None;
             }
@@ -312,6 +341,8 @@ impl Part for AllFlagStates {
 #[derive(Clone, Debug)]
 pub struct ConnectCase {
     pub ops: Vec<Op>,
+    /// calls made after the transport was selected (no transport selection among them)
+    pub post: Vec<Op>,
     pub udp: bool,
     pub with_local: bool,
     pub async_api: bool,
@@ -339,6 +370,7 @@ impl Part for Connect {
             }).unwrap();
             let addr = listener.local_addr().unwrap();
             ops.push(Op::Tcp);
+            ops.extend(c.post.iter().filter(|o| !matches!(o, Op::Tcp | Op::Udp(_) | Op::Relay)).cloned());
             let (b, m) = apply(&ops, addr).map_err(|e| Fail::new("harness:apply", e))?;
             model = m;
             let server = std::thread::spawn(move || {
@@ -383,6 +415,7 @@ impl Part for Connect {
             let addr = peer.local_addr().unwrap();
             let local = if c.with_local { free_udp_port() } else { None };
             ops.push(Op::Udp(local));
+            ops.extend(c.post.iter().filter(|o| !matches!(o, Op::Tcp | Op::Udp(_) | Op::Relay)).cloned());
             let (b, m) = apply(&ops, addr).map_err(|e| Fail::new("harness:apply", e))?;
             model = m;
             let r: Result<Result<(), String>, String> = if c.async_api {
@@ -449,10 +482,10 @@ impl Part for Connect {
         Ok(())
     }
     fn to_json(&self, c: &ConnectCase) -> Value {
-        json!({"calls": ops_json(&c.ops), "udp": c.udp, "with_local": c.with_local, "async": c.async_api})
+        json!({"calls": ops_json(&c.ops), "calls_after_transport": ops_json(&c.post), "udp": c.udp, "with_local": c.with_local, "async": c.async_api})
     }
     fn from_json(&self, v: &Value) -> Option<ConnectCase> {
-        Some(ConnectCase { ops: ops_from(v.get("calls")?)?, udp: v.get("udp")?.as_bool()?, with_local: v.get("with_local")?.as_bool()?, async_api: v.get("async")?.as_bool()? })
+        Some(ConnectCase { ops: ops_from(v.get("calls")?)?, post: v.get("calls_after_transport").and_then(ops_from).unwrap_or_default(), udp: v.get("udp")?.as_bool()?, with_local: v.get("with_local")?.as_bool()?, async_api: v.get("async")?.as_bool()? })
     }
 }
 
@@ -484,6 +517,14 @@ fn op_strategy(with_transport: bool) -> impl Strategy<Value = Op> {
             any::<bool>().prop_map(Op::Verify),
             any::<bool>().prop_map(Op::Nodelay),
         ],
+        3 => prop_oneof![
+            any::<bool>().prop_map(Op::RelayWs),
+            (1u32..20_000).prop_map(Op::ConnectTimeout),
+            any::<bool>().prop_map(Op::ModeSet),
+            text_opt(12).prop_map(Op::RelayHost),
+            text_opt(12).prop_map(Op::RelaySpec),
+            text_opt(12).prop_map(Op::RelayAdmin),
+        ],
     ]
 }
 
@@ -494,10 +535,10 @@ pub fn parts() -> Vec<Box<dyn DynPart>> {
 pub fn run(run: &mut Run) {
     run.rule = "Builder call sequences of length 0..25 over the 10 flag setters, wholesale flag replacement, prefix / interval / name / \
         password / request id set or cleared, tcp / udp(with, without local address) / relay, compressed / uncompressed, verify_version, \
-        tcp_nodelay are applied to the real builder and to a plain struct model (later calls override earlier ones); isi() must not panic \
+        tcp_nodelay, mode(), connect_timeout and the relay-only options (websocket, host selection, spectator / admin password) are applied to the real builder and to a plain struct model (later calls override earlier ones); isi() must not panic \
         and must render like the model's ISI (defaults: name insim.rs, empty password, NUL prefix, interval 0, request id 0, UDP port = \
         configured local port or 0). All 1024 flag states via the individual setters (complete). Connect: a loopback TCP listener / UDP \
-        peer receives the handshake of connect_blocking and connect_async: exactly one ISI frame equal to the 44-byte image laid out from the documented structure and the model of the configuration (not by the library's encoder); relay() calls earlier in the sequence must not \
+        peer receives the handshake of connect_blocking and connect_async: exactly one ISI frame equal to the 44-byte image laid out from the documented structure and the model of the configuration (not by the library's encoder); relay() calls earlier in the sequence and any other setter called after the transport selection must not \
         disturb it, and an interval beyond the 16-bit field must be refused (nothing sent), never sent as another value. \
         Non-trivial = at least two builder calls (model part), every connect case."
         .into();
@@ -509,7 +550,8 @@ pub fn run(run: &mut Run) {
     let n = run.budget(200_000, 5_000_000);
     run.prop(&IsiModel, proptest::collection::vec(op_strategy(true), 0..25), n);
     run.max_shrink_iters = 200;
-    let strat = (proptest::collection::vec(prop_oneof![8 => op_strategy(false), 1 => Just(Op::Relay)], 0..12), any::<bool>(), any::<bool>(), any::<bool>()).prop_map(|(ops, udp, with_local, async_api)| ConnectCase { ops, udp, with_local, async_api });
+    let strat = (proptest::collection::vec(prop_oneof![8 => op_strategy(false), 1 => Just(Op::Relay)], 0..12), proptest::collection::vec(op_strategy(false), 0..5), any::<bool>(), any::<bool>(), any::<bool>())
+        .prop_map(|(ops, post, udp, with_local, async_api)| ConnectCase { ops, post, udp, with_local, async_api });
     let n = run.budget(600, 20_000);
     run.prop(&Connect, strat, n);
 }
